@@ -59,8 +59,8 @@ pub fn check(spec: &DistSpec, out: &Out) -> Option<(&'static str, String)> {
             if x.is_infinite() {
                 // documented infinities
                 let allowed = match spec.family {
-                    Family::Exp => p[0] == 0.0,
-                    Family::Gamma => p[0].is_infinite() || p[1].is_infinite(),
+                    Family::Exp => p[0] == 0.0 && x > 0.0,
+                    Family::Gamma => (p[0].is_infinite() || p[1].is_infinite()) && x > 0.0,
                     Family::Zeta => {
                         // proposal u_min^(-1/(s-1)) overflows
                         let (umin_ln, max_ln) =
